@@ -14,8 +14,9 @@ func init() {
 		"(R1) lax propagation — the set of parameters that receive the lax flag is exactly {checkInteger, parseInt64, parseInt32, parseBigInt, parseObjectIdentifier, parsePrintableString, parseSequenceOf}; at every call site of these the lax argument is the caller's own incoming flag (its lax parameter or params.lax), never a constant; a taker that receives the flag inside a parameter structure instead of a bool is held to the rule for parseField's parameters at each of its call sites; every parseField call made by a function that has an incoming flag passes parameters whose lax field was set from it on all paths; the lax field is written only from an incoming flag or, in parseFieldParameters, as true under the tag part \"lax\"; Unmarshal is UnmarshalWithParams with the empty (strict) parameter string and the remainder is b[offset:]; "+
 		"(R2) monotonicity — lax-derived values condition branches only in checkInteger, parseObjectIdentifier, parsePrintableString; in each, for every valuation of all other branch atoms, what strict mode accepts lax mode accepts with the identical result, lax never rejects where strict accepts, and the outcomes differ only for the documented malformation (integer longer than one byte / empty OID / non-printable byte, accepted only if the bytes could be ISO 8859-1 or T.61); "+
 		"(R3) strict ≡ toolchain — with every lax operand replaced by false, each same-named function of the package (both sides are collected from the whole package, whatever file a declaration lives in) has the same multiset of rejection sites, error-propagating calls and returns under the same enclosing/preceding conditions, the same multiset of branch conditions (every if / for / range / switch clause, comparison orientation canonical; decisions in one normal form: tagless switch = if-chain, nested if = &&, a leaving `if a || b` = one if per disjunct, length > 0 = length != 0, keyed = positional struct literals, single-definition temporaries substituted, range over an integer = its counting loop when the bound is invariant, verb-less fmt.Errorf = errors.New, helper calls expanded by the source normaliser read in place where that is exact — run-once blocks, result temporaries, nil tests decided by what precedes them —, unexported package variables under another name matched by their definition, a parameter that every upstream caller derives from another argument read as that derivation, a fork parameter that every fork caller computes by a pure niladic time.Time / reflect.Type method from a value of upstream's parameter type read as that method applied inside, an unexported one-expression function that only one side has read as its expression at each call, a local that every return statement returns read as the named result, a switch over constants = the chain of == tests, a range over a slice variable (from a constant index) = its counting loop where nothing in the loop can write the elements, `x = new(T); *x = v` = `x = &i` for a once-defined otherwise unused local of the same loop iteration, strings.CutPrefix with a constant prefix = HasPrefix and the re-slice, an error temporary that is copied to a nil target right after its test read as the target, conjuncts and chain parts that an enclosing counting loop or a positive test of the same variable implies left out, the condition of an if taken together with the still valid conditions of the ifs whose bodies enclose it; where the normal forms of a function still differ, each run of statements that only tests integer variables for equality — with constants or each other — and copies integer variables / constants is read as the function it computes from the values before it to the values after it and compared with its upstream counterpart on every input of the finite abstract domain, constants mentioned plus one further value per variable: a difference is reported with an input on which the two sides go on differently) and the same multiset of assignments to named results and to variables that flow into returned values as encoding/asn1 of the toolchain that type-checks the repository, up to the frozen drift table in rules_c10.go (each entry with reason; acceptance-changing entries are marked); x[0:n] = x[:n], a range loop that names its index = the counting loop when the body does not write the index, strconv.Itoa / string(AppendInt(empty, …)) / strings.Builder.Write read in one form; every package-level variable of the fork is written by its declaration only or is write-only for the decoder (upstream has no such variable, flat type, every reference outside the functions below is an atomic Add / Store, ++, op= or = statement of a side-effect-free expression — such statements are no part of the strict residual); a function that only the fork has is no drift when it lies outside the decoder: nothing but such functions refers to it, its receiver type occurs nowhere in decoder code, and it refers to no package-level function or variable of the fork except such functions, write-only variables and never-written variables of a flat type (a fork-only function that a compared function calls, or that calls into the decoder, stays reported); "+
+		"round 8 — (early exit) a guard `if x == k { …; return … }` in the body of a function that one side has and the other has not is passed over when the statements that follow it, executed symbolically under its condition (constants folded, loops unrolled while their conditions evaluate, what the walk knows to be nil put in), make the same calls and return the same values; when they differ both outcomes are reported side by side (an empty SEQUENCE OF that decodes to the nil slice where the code that follows yields an empty non-nil one); (memo tables) a package-level sync.Map that the decoder reads is no state a later call could observe when it is used through Load / LoadOrStore / Store only, every value put into it is — with the memory it refers to — computed from its key alone (pure functions of the package, decided on the SSA; reflect.Type queries; constants), no store into a published value can execute after its publication, and nothing anywhere in the package writes through a value read from it or published to it, followed through locals, φ, slicing, indexing, returns and parameters, nor through pointer-typed parts copied out of it: a lookup is then read as a miss, so that what the function computes is compared; a slice made with make([]T, N) and filled by one loop `S[i] = E(i)` of pure expressions, never written otherwise, is read as the function it tabulates (range S = the counting loop to N, S[j] = E(j), len(S) = N); (element typing) the call that decodes an element of a freshly made slice is executed on the scalars that decide it — header class / tag / compound bit, the constant result tuples of the type classification, the fields of the parameter structure as evaluated field by field through every call site and through functions that hand a structure back with fields set to constants — on both sides: every element the fork's element decoding accepts, or starts to store, has a header that encoding/asn1's counting pass lets through to its element decoding (typed), and a field of the element parameters that is not the constant encoding/asn1 passes does not matter: every path on which it decides a branch or leaves the executed code ends rejected without a store (neutral); only when (typed) holds may encoding/asn1's counting-pass test of the element headers be absent from the fork (conditional drift entries), and a fork-only parameter structure is compared as the literal of its evaluated fields; R1: a function that returns its parameter structure with the lax field untouched hands the flag on, a local that starts as a copy of the incoming parameters carries their flag; "+
 		"(R4) raw preservation — parseField stores RawValue.FullBytes and RawContent as bytes[initOffset:offset] (sub-slice of the input ending at the returned offset) and Bytes as its content suffix; makeField emits non-empty FullBytes verbatim, makeBody emits a leading non-empty RawContent minus its header, bytesEncoder copies verbatim. "+
-		"NOT covered: mutation of what a package-level pointer / slice / map refers to through a call that receives it, writes by other packages to exported variables, acceptance/value equality with encoding/asn1 on all inputs (only that no check, propagation or return differs structurally), code without a rejection/return site (offset arithmetic, reflect stores), marshal∘unmarshal identity, absence of panics, allocation bounds, the semantics of reflect. The R3 verdict is relative to the installed toolchain's encoding/asn1 (version recorded in the assumptions).",
+		"NOT covered: element typing takes one element for every element (all elements of a sequence share the abstract header), identifies the header read by the counting pass with the first header read of the element decoder (same function, at the element's start) and the type class consulted by both with one another, and does not follow integers round loops; memo tables other than sync.Map, tables whose values are shared with other memory, and tabulations whose fill is not one loop over all indices stay reported; early exits other than a guard in the function body's own statement list whose continuation evaluates under the guard's condition stay reported; mutation of what a package-level pointer / slice / map refers to through a call that receives it (outside memo tables), writes by other packages to exported variables, acceptance/value equality with encoding/asn1 on all inputs (only that no check, propagation or return differs structurally), code without a rejection/return site (offset arithmetic, reflect stores), marshal∘unmarshal identity, absence of panics, allocation bounds, the semantics of reflect. The R3 verdict is relative to the installed toolchain's encoding/asn1 (version recorded in the assumptions).",
 		runC10)
 }
 
@@ -42,6 +43,7 @@ func runC10(r *Run) {
 	c10R4(r)
 
 	r.NilArgsRule("C10.R5", "asn1")
+	c10DebugObls(r)
 }
 
 // ---- R1: lax propagation --------------------------------------------------------
@@ -145,7 +147,10 @@ func c10R1(r *Run, li *c10LaxInfo) {
 			r.Check("lax-writer:"+name, li.isLax(st.Val), r.Where(st), "lax field ← "+r.D.D(st.Val)+" (must be the incoming flag)")
 		}
 	}
-	r.Floor("writers of fieldParameters.lax", nw, 3)
+	// (what the count protects: the enumeration found the two kinds of writers there must be — the tag
+	// grammar, and at least one place that hands an incoming flag on to parameters parsed from a tag;
+	// parameters that are copied whole, or built as a literal, need no writer: (d) decides every call)
+	r.Floor("writers of fieldParameters.lax", nw, 2)
 	// (d) the parameters handed to parseField carry the incoming flag
 	pf := r.Fn("asn1.parseField")
 	if pf != nil {
@@ -244,6 +249,19 @@ func c10ParamsCarryLax(r *Run, li *c10LaxInfo, fn *ssa.Function, c ssa.CallInstr
 		}
 	}
 	a := args[ai]
+	// a function that gives back its parameter structure with the lax field untouched hands the
+	// flag on: the question is the one about its argument (rules_t8c10.go)
+	for d := 0; d < 4; d++ {
+		call, ok := a.(*ssa.Call)
+		if !ok {
+			break
+		}
+		k := c10LaxPassThrough(li, call)
+		if k < 0 {
+			break
+		}
+		a = call.Call.Args[k]
+	}
 	if !incoming {
 		if mustInherit {
 			r.Fail(key, r.Where(c), "the caller has no incoming lax flag to forward (its lax parameter or the lax field of its parameters)")
@@ -266,7 +284,7 @@ func c10ParamsCarryLax(r *Run, li *c10LaxInfo, fn *ssa.Function, c ssa.CallInstr
 		al, _ = ld.X.(*ssa.Alloc)
 	}
 	if al == nil {
-		r.Fail(key, r.Where(c), "undecided: parameters argument "+r.D.D(a)+" is not built in a local")
+		r.Fail(key, r.Where(c), "the parameters passed are "+r.D.D(a)+": neither the caller's own parameters (possibly through a function that hands them back with the lax field untouched) nor a local whose lax field is set from the incoming flag — nested fields / elements are decoded with whatever laxness that value holds")
 		return false
 	}
 	if p := paramSpill(al); p != nil {
@@ -324,7 +342,11 @@ func c10ParamsCarryLax(r *Run, li *c10LaxInfo, fn *ssa.Function, c ssa.CallInstr
 		switch x := ref.(type) {
 		case *ssa.Store:
 			if x.Addr == al {
-				isKill[x] = true // whole-value overwrite
+				if c10IsParam(x.Val) && types.Identical(x.Val.Type(), al.Type().(*types.Pointer).Elem()) {
+					good = append(good, x) // a copy of the incoming parameters: their lax field comes along
+				} else {
+					isKill[x] = true // whole-value overwrite
+				}
 			}
 		case *ssa.FieldAddr:
 			if fieldOf(x) != li.field {
